@@ -110,6 +110,45 @@ CLAIMED = {
         note="PARTIAL: panics inside third-party crates are only excluded by the runs. Open known finding F5 (node with > 2^63 "
              "children × Packed) is reported as KNOWN-FINDING.",
         tech="Lean 4 proofs for splitters and packed arithmetic + panic-catching correspondence run"),
+
+    "C07": dict(
+        text="Lean 4 theorems on the model of the poll closure and the list pump, for every settings type (abstract ops) and every "
+             "environment behaviour: Set/Get/Get-error/List-accept/busy-refusal answers as exact equations (one message, response "
+             "topic, correlation data, code); list pump: sent ++ remaining = paths (no gaps/repeats), final Ok exactly at completion, "
+             "complete answer with enough slots, independence of how slots are split over update() calls; foreign topics ignored. "
+             "Every run drives the REAL MqttClient + minimq in-process (in-memory TCP, broker stub, mock clock) through random "
+             "request/fault histories, steps the Lean model on the observations recorded by the cfg hooks and compares state, "
+             "return value and publications per update(), and checks the broker's packet log against an independent simulator.",
+        note="minimq (QoS handshakes, retransmission, buffers) is the environment: observed, not modelled. 'Delivered while able to "
+             "publish' is the hypothesis canPub. Trusted: broker stub, mock clock, observation derivation.",
+        tech="Lean 4 proofs (unfolding equations, list induction) over a hand-written model + hook-driven refinement check against the real client + packet-log oracle"),
+    "C10": dict(
+        text="Lean 4 theorems on the dump pump for every settings type and slot schedule: consumed leaves are a prefix of the walk; "
+             "exactly the present ones are published, in order, once each, with the value held now or the too-large Error; absent "
+             "skipped; completion only when nothing remains; with enough slots everything is published and the client is idle; the "
+             "three entry points root the walk with no response topic; API dump refused while busy. Run: as C07, with dump-heavy "
+             "histories (values beyond the transmit buffer, Option toggles, withheld acks, concurrent requests).",
+        note="Retransmissions (DUP) are minimq's and excluded as the property allows. F4 (oversize value panicked) fixed in /repo.",
+        tech="Lean 4 proofs (list induction with an element-wise relation) + hook-driven refinement check + packet-log oracle"),
+    "C13": dict(
+        text="Lean 4 theorems for every history of environment observations: an epoch invariant (protocol state ⇒ what this "
+             "connection has sent: nothing / alive / alive+subscribe with timeout = subscribe time + 2 s / timeout elapsed) "
+             "preserved by every update() and hence along every run with monotone time; consequently alive only first, subscribe "
+             "only after alive and once, list/dump items only after both and ≥ 2 s after the subscription; connection loss or "
+             "session reset returns to Connect; state moves only along the transition table. Run: fault histories (drops with "
+             "session present/absent, API reset, clock advances straddling 2 s, withheld acks) against the real client.",
+        note="The CONNECT will (retained, empty, alive topic) is configuration, checked by the broker stub's decoder only. Wall "
+             "clock = mock clock.",
+        tech="Lean 4 invariant proof by induction over observation sequences + refinement check + packet-log oracle"),
+    "C14": dict(
+        text="Lean 4 theorems for every settings type and observation: settings change only through a message with non-empty "
+             "payload on a settings topic and then exactly as the JSON write does; update() returns true iff that write returned Ok; "
+             "too-long response topic / correlation data refuse a multipart request with an Error and leave the client untouched; "
+             "no unwrap of the handler is reachable for a coherent settings type. Run: histories with arbitrary topics, malformed "
+             "JSON, property lengths around 128/32, oversize values; panics caught; final settings compared with an independent "
+             "simulator applying only accepted writes.",
+        note="Panics inside minimq are excluded only by the runs. envContract: publish succeeds when can_publish was true.",
+        tech="Lean 4 proofs (case analysis of the handler) + refinement check against the real client + oracle"),
 }
 
 PENDING = "not yet built in this framework (work in progress; see DESIGN.md §10 order of work)"
@@ -136,8 +175,8 @@ m = {
         "guard": "quartiq_miniconf_verif",
         "enable": "--cfg quartiq_miniconf_verif via /verif/harness/.cargo/config.toml [build] rustflags",
         "baseline_off_cmd": "cd /repo && cargo test --workspace --no-fail-fast --offline",
-        "source_commits": [],
-        "fix_commits": ["5c38288", "bc86863", "df164b5"],
+        "source_commits": ["e8855d7"],
+        "fix_commits": ["5c38288", "bc86863", "df164b5", "4be6bf2"],
         "add_only": True,
     },
     "engines": [{
